@@ -398,8 +398,8 @@ func lexSpaces(c *explore.Ctx, conformance, positions bool, delta int) {
 	block := []string{" ", "\t", "a", "\n", "\r", `"`, `\`}
 	seq("block-bodies", block, c.Pick(8, 10)+delta, func(b string) string { return `"""` + b + `""" a` }, `block-string bodies wrapped as """…""" a, over `+strings.Join(quoteAll(block), " "))
 
-	blockBad := []string{"a", " ", "\n", "\r", "\a", "é", `"`}
-	seq("block-bodies-invalid", blockBad, c.Pick(7, 9)+delta, func(b string) string { return `"""` + b + `""" a` }, `block-string bodies with a character that is no SourceCharacter (U+0007) after line terminators and multi-byte characters, wrapped as """…""" a, over `+strings.Join(quoteAll(blockBad), " "))
+	blockBad := []string{"a", " ", "\n", "\r", "\a", "é", `"`, "\u2028"}
+	seq("block-bodies-invalid", blockBad, c.Pick(6, 8)+delta, func(b string) string { return `"""` + b + `""" a` }, `block-string bodies with a character that is no SourceCharacter (U+0007) and one that looks like a line break but is none (U+2028) after line terminators and multi-byte characters, wrapped as """…""" a, over `+strings.Join(quoteAll(blockBad), " "))
 
 	// ignored characters between every pair of tokens
 	s := c.Sub("ignored-gaps", "every pair of 24 token representatives × every string of ≤ 2 ignored items (space, comma, LF, CR, CRLF, tab, BOM, comments) in the gap and before/after", oracle, "always (two tokens)")
